@@ -112,7 +112,10 @@ func (w *c03Worker) run(res *runner.CaseResult, idx int, replay *sim.History, sn
 		return
 	}
 	addFailures(res, t.A.Fail, t.H, "gc-on:")
-	if len(t.A.Fail) == 0 {
+	if len(t.A.Fail) == 0 && !t.comparable() {
+		res.AddStat("twin_actor_order_mismatch", 1)
+		res.Inconclusive = "actor ids sort differently in the two worlds (ObjectID counter wrap); twin comparison skipped"
+	} else if len(t.A.Fail) == 0 {
 		res.AddStat("twin_comparisons", int64(len(t.QA)))
 		if ok, d := t.compareTwins(); !ok {
 			res.Violate("gc-changes-content", "content with GC differs from content without GC:\n"+d, "", t.H)
